@@ -72,6 +72,9 @@ def check(run):
     # macro half (x86-64): a label as memory operand must be referenced exactly, whatever follows the displacement inside the instruction
     import x64lbl
     stats["x64_label_operands"] = x64lbl.sweep(run)
+    # macro half, every backend: the user-supplied offset of a reference reaches the relocation call as written
+    import lblofs
+    stats["label_offsets"] = lblofs.sweep(run)
     run.coverage["evaluations"] = len(progs)
     run.coverage["distinct_nontrivial"] = nontrivial
     run.coverage["traces_validated_against_impl"] = stats["requests"]
